@@ -35,7 +35,7 @@ void dispatch(const Cfg& cf, int op, int rank, RankOut& out, std::string& err)
 int main(int argc, char** argv)
 {
   Runtime::ScopeGuard guard(argc, argv);
-  if(argc < 9) { fprintf(stderr, "usage: c13_real <block|star> <a> <b> <refine> <assign> <space> <bs> <op>\n"); return 2; }
+  if(argc < 9) { fprintf(stderr, "usage: c13_real <block|star> <a> <b> <refine> <assign> <space> <bs> <op> [renum]\n"); return 2; }
   int rank = 0, P = 1;
   MPI_Comm_rank(MPI_COMM_WORLD, &rank); MPI_Comm_size(MPI_COMM_WORLD, &P);
   Cfg cf;
@@ -45,15 +45,16 @@ int main(int argc, char** argv)
   for(const char* p = argv[5]; *p; ++p) cf.assign.push_back(*p - '0');
   cf.space = atoi(argv[6]); cf.bs = atoi(argv[7]);
   const int op = atoi(argv[8]);
+  if(argc > 9) cf.renum = atoi(argv[9]);
   cf.P = P;
   RankOut out; std::string err;
   if(kind == "block") { cf.mesh = vm::gen_block(2, a, b, 0); dispatch<Geometry::ConformalMesh<Shape::Hypercube<2>, 2, double>>(cf, op, rank, out, err); }
   else if(kind == "star") { cf.mesh = vm::gen_star(true, 2, a); dispatch<Geometry::ConformalMesh<Shape::Simplex<2>, 2, double>>(cf, op, rank, out, err); }
   else err = "unknown mesh kind";
   if(!err.empty() || !out.note.empty()) { fprintf(stderr, "c13_real rank %d: %s %s\n", rank, err.c_str(), out.note.c_str()); MPI_Abort(MPI_COMM_WORLD, 3); }
-  // serialise: [n0 v0.. n1 v1.. n2 v2.. ns s.. nm m..]
+  // serialise: [n0 v0.. n5 v5.. ns s.. nm m..]
   std::vector<double> buf;
-  for(int s = 0; s < 3; ++s) { buf.push_back(double(out.vec[s].size())); buf.insert(buf.end(), out.vec[s].begin(), out.vec[s].end()); }
+  for(int s = 0; s < RankOut::nvec; ++s) { buf.push_back(double(out.vec[s].size())); buf.insert(buf.end(), out.vec[s].begin(), out.vec[s].end()); }
   buf.push_back(double(out.scal.size())); buf.insert(buf.end(), out.scal.begin(), out.scal.end());
   buf.push_back(double(out.mat.size())); buf.insert(buf.end(), out.mat.begin(), out.mat.end());
   int n = int(buf.size());
@@ -68,7 +69,7 @@ int main(int argc, char** argv)
     for(int r = 0; r < P; ++r)
     {
       const double* p = all.data() + dsp[size_t(r)];
-      for(int s = 0; s < 3; ++s) { const size_t k = size_t(*p++); outs[size_t(r)].vec[s].assign(p, p + k); p += k; }
+      for(int s = 0; s < RankOut::nvec; ++s) { const size_t k = size_t(*p++); outs[size_t(r)].vec[s].assign(p, p + k); p += k; }
       { const size_t k = size_t(*p++); outs[size_t(r)].scal.assign(p, p + k); p += k; }
       { const size_t k = size_t(*p++); outs[size_t(r)].mat.assign(p, p + k); p += k; }
     }
